@@ -280,6 +280,13 @@ def graph_inputs(cap, utf8, all_bytes=False, max_states=400):
     inputs = set()
     pairs = 0
     states = sorted(access)[:max_states]
+    # prefixes: the shortest complete token, alone and followed by a blank
+    done = [access[s] for s in sorted(access, key=lambda s: (len(access[s]), s)) if s != cap.root and (st[s]['early'] >= 0 or st[s]['accept'] >= 0)]
+    prefixes = []
+    if done:
+        p0 = done[0]
+        if not utf8 or complete_utf8(p0) == p0:
+            prefixes = [p0, p0 + [0x20]]
     for s in states:
         acc = access[s]
         bs = set(PROBES)
@@ -305,6 +312,17 @@ def graph_inputs(cap, utf8, all_bytes=False, max_states=400):
                     cand.append(acc + [x] * k)
                     for e in exits:
                         cand.append(acc + [x] * k + [e])
+        # the same walk started in the middle of the input (after a complete token and, where the definition has one, a
+        # skipped byte): absolute and token-relative offsets differ there
+        if prefixes:
+            sub = [acc] + [acc + [b] for b in sorted(bs)[:: max(1, len(bs) // 5)]]
+            for (t, ranges) in st[s]['edges']:
+                if t == s:
+                    x = pick(ranges)
+                    if not (utf8 and x >= 128):
+                        sub += [acc + [x] * k for k in (1, 7, 8, 9, 17)]
+            for pre in prefixes:
+                cand += [pre + c for c in sub]
         for c in cand:
             if utf8:
                 c2 = complete_utf8(c)
